@@ -107,6 +107,23 @@ def named_stream(ck, want):
     ck.coverage['named_tuple_table'] = {'cases': n, 'judged_as': want}
 
 
+def gclass_stream(ck):
+    """generic @pedantic_class classes of several base layouts (C08: nothing but PedanticException from the machinery)"""
+    n = ck.run_impl('w_checker', [{'obs': 'gclass', 'size': 1}], shards=1)[0]['size']
+    res = ck.run_impl('w_checker', [{'obs': 'gclass', 'i': i} for i in range(n)], shards=1)
+    hist = {}
+    for i, r in enumerate(res):
+        if r is None or 'error' in r:
+            ck.oblige('impl-worker:gclass', 'correspondence', False, str(r))
+            continue
+        ck.note_case('gclass-%d' % i, nontrivial=True)
+        hist[OUT_NAMES.get(r['out'], str(r['out']))] = hist.get(OUT_NAMES.get(r['out'], str(r['out'])), 0) + 1
+        if r['out'] in (4, 5):
+            ck.violation(f'{r.get("exc")} escaped from a method call on an instance of a generic @pedantic_class: ' + r['name'],
+                         {'obs': 'gclass', 'i': i, 'stream': 'gclass', 'name': r['name']}, stream='gclass', extra={'impl': r})
+    ck.coverage['generic_class_stream'] = {'cases': n, 'outcomes': hist}
+
+
 def has_abc(a):
     if not isinstance(a, list):
         return False
